@@ -11,9 +11,9 @@ import time
 
 import z3
 
-Z3_TIMEOUT_MS = int(os.environ.get("PYVC_Z3_MS", "10000"))
-CVC5_TIMEOUT_S = int(os.environ.get("PYVC_CVC5_S", "60"))
-Z3OLD_TIMEOUT_S = int(os.environ.get("PYVC_Z3OLD_S", "30"))
+Z3_TIMEOUT_MS = int(os.environ.get("PYVC_Z3_MS", "6000"))
+CVC5_TIMEOUT_S = int(os.environ.get("PYVC_CVC5_S", "20"))
+Z3OLD_TIMEOUT_S = int(os.environ.get("PYVC_Z3OLD_S", "0"))
 SEED = 0
 
 
@@ -77,6 +77,9 @@ def solve_precise(assumptions, goal, want_model=True, z3_ms=None, use_cvc5=True)
     res = run_cvc5(text)
     res["seconds"] += dt
     if res["status"] != "unknown":
+        return res
+    if Z3OLD_TIMEOUT_S <= 0:
+        res["reason"] = f"z3: {reason}; cvc5: {res.get('reason')}"
         return res
     res2 = run_z3_old(text)
     res2["seconds"] += res["seconds"]
